@@ -1,6 +1,7 @@
 package checks
 
 import (
+	"context"
 	"encoding/json"
 	"fmt"
 	"strings"
@@ -56,12 +57,28 @@ type c01AppDef struct {
 	variants int
 	build    func(v int) *app.App
 	inputs   []string
+	first    func(v int) resource.EntryFunc // optional WithFirst function
 }
 
 var c01Apps = []c01AppDef{
-	{"vals", 6, func(v int) *app.App {
-		v1 := []string{"", "x", "xyz"}[v%3]
-		v2 := []string{"", "pq"}[v/3]
+	{name: "firstterm", variants: 3, build: func(v int) *app.App {
+		a := app.New("firstterm")
+		a.Node("root", "start", codec.Ins{Op: codec.MOUT, Sym: "go", Sel: "1"}, codec.Ins{Op: codec.HALT}, codec.Ins{Op: codec.INCMP, Sym: ".", Sel: "1"})
+		a.Node("_catch", "oops", c01Catch...)
+		return a
+	}, inputs: []string{"1", "zz"}, first: func(v int) resource.EntryFunc {
+		// a gatekeeper: refuses service (TERMINATE) with a notice of varying length when the input is "zz"
+		notice := []string{"no", "service is closed today", strings.Repeat("closed ", 12)}[v]
+		return func(ctx context.Context, sym string, input []byte) (resource.Result, error) {
+			if string(input) == "zz" {
+				return resource.Result{Content: notice, FlagSet: []uint32{6}}, nil
+			}
+			return resource.Result{}, nil
+		}
+	}},
+	{"vals", 8, func(v int) *app.App {
+		v1 := []string{"", "x", "xyz", "\u0436\u00e9"}[v%4] // the last one: 2 characters, 4 bytes
+		v2 := []string{"", "pq"}[v/4]
 		a := app.New("vals")
 		a.Node("root", "r {{.v1}}", codec.Ins{Op: codec.LOAD, Sym: "v1", N: 3}, codec.Ins{Op: codec.MAP, Sym: "v1"}, codec.Ins{Op: codec.MOUT, Sym: "m0", Sel: "1"},
 			codec.Ins{Op: codec.HALT}, codec.Ins{Op: codec.INCMP, Sym: "two", Sel: "1"})
@@ -70,7 +87,17 @@ var c01Apps = []c01AppDef{
 		a.Node("_catch", "oops", c01Catch...)
 		a.Func("v1", constFunc(v1)).Func("v2", constFunc(v2))
 		return a
-	}, []string{"1", "0", "zz", "a long junk input 0123456789"}},
+	}, []string{"1", "0", "zz", "a long junk input 0123456789", "z\u0436\u0436\u0436"}, nil},
+	{"utf8", 2, func(v int) *app.App {
+		// multi-byte text everywhere: the limit is in bytes, not characters
+		a := app.New("utf8")
+		a.Node("root", "\u043f\u0440\u0438\u0432\u0435\u0442 {{.nm}}", codec.Ins{Op: codec.LOAD, Sym: "nm", N: 40}, codec.Ins{Op: codec.MAP, Sym: "nm"}, codec.Ins{Op: codec.MOUT, Sym: "\u0434\u0430\u043b\u044c\u0448\u0435", Sel: "1"},
+			codec.Ins{Op: codec.HALT}, codec.Ins{Op: codec.INCMP, Sym: "two", Sel: "1"})
+		a.Node("two", "\u00e9\u00e8\u00ea {{.nm}}", codec.Ins{Op: codec.MAP, Sym: "nm"}, codec.Ins{Op: codec.MOUT, Sym: "\u043d\u0430\u0437\u0430\u0434", Sel: "0"}, codec.Ins{Op: codec.HALT}, codec.Ins{Op: codec.INCMP, Sym: "_", Sel: "0"})
+		a.Node("_catch", "\u043e\u0439", c01Catch...)
+		a.Func("nm", constFunc([]string{"\u0418\u0432\u0430\u043d", "\u65e5\u672c\u8a9e"}[v]))
+		return a
+	}, []string{"1", "0", "z\u0436"}, nil},
 	{"end", 3, func(v int) *app.App {
 		gv := []string{"", "gv", "lastvalue"}[v]
 		a := app.New("end")
@@ -79,7 +106,7 @@ var c01Apps = []c01AppDef{
 		a.Node("_catch", "oops", c01Catch...)
 		a.Func("gv", constFunc(gv))
 		return a
-	}, []string{"1", "zz"}},
+	}, []string{"1", "zz"}, nil},
 	{"err", 2, func(v int) *app.App {
 		a := app.New("err")
 		a.Node("root", "start", codec.Ins{Op: codec.MOUT, Sym: "go", Sel: "1"}, codec.Ins{Op: codec.HALT}, codec.Ins{Op: codec.INCMP, Sym: "bad", Sel: "1"})
@@ -92,10 +119,20 @@ var c01Apps = []c01AppDef{
 			return resource.Result{Status: 12345}, fmt.Errorf("boom")
 		})
 		return a
-	}, []string{"1", "zz"}},
+	}, []string{"1", "zz"}, nil},
 }
 
 func c01Session(a *app.App, mode string, size uint32) *app.Session {
+	s := c01SessionPlain(a, mode, size)
+	if d, ok := c01Def(a.Name); ok && d.first != nil {
+		s.First = d.first(c01Variant[a])
+	}
+	return s
+}
+
+var c01Variant = map[*app.App]int{}
+
+func c01SessionPlain(a *app.App, mode string, size uint32) *app.Session {
 	if mode == "persisted" {
 		s := app.NewSession(a, engine.Config{SessionId: "s1", OutputSize: size}, app.Persisted)
 		s.Open = app.MemStore()
@@ -107,7 +144,10 @@ func c01Session(a *app.App, mode string, size uint32) *app.Session {
 
 // c01Unlimited serves the history without a limit.
 func c01Unlimited(d c01AppDef, variant int, mode string, inputs []string) []app.Resp {
-	s := c01Session(d.build(variant), mode, 0)
+	ua := d.build(variant)
+	c01Variant[ua] = variant
+	s := c01Session(ua, mode, 0)
+	delete(c01Variant, ua)
 	var out []app.Resp
 	for _, in := range append([]string{""}, inputs...) {
 		r := s.Request([]byte(in))
@@ -120,7 +160,10 @@ func c01Unlimited(d c01AppDef, variant int, mode string, inputs []string) []app.
 }
 
 func c01Sized(d c01AppDef, variant int, mode string, inputs []string, size uint32, base []app.Resp, c *mc.Ctx) (sig, msg string, reqs int) {
-	s := c01Session(d.build(variant), mode, size)
+	sa := d.build(variant)
+	c01Variant[sa] = variant
+	s := c01Session(sa, mode, size)
+	delete(c01Variant, sa)
 	all := append([]string{""}, inputs...)
 	for k := range base {
 		r := s.Request([]byte(all[k]))
